@@ -4,12 +4,16 @@ SPEC = {
     "lean_modules": ["PallasVerif.Props.C19"],
     "required_theorems": [
         "crc32_check_value", "from_bytes_checks_crc", "address_from_bytes_checks_crc", "from_base58_checks_crc", "mismatch_rejected",
-        "byron_roundtrip_cbor", "byron_roundtrip_base58", "payload_bit_flip_rejected", "checksum_corruption_rejected",
+        "byron_roundtrip_cbor", "byron_roundtrip_base58", "payload_bit_flip_rejected", "checksum_corruption_rejected", "from_bytes_any_head_widths",
+        "wrong_checksum_rejected_any_width",
         "crc32_detects_single_bit_errors", "payload_roundtrip", "decode_of_from_decoded",
     ],
     "streams": [{"name": "byron", "quick": 400, "thorough": 12000}],
     "rule": "per case: `build` of a random AddressPayload (root 28 bytes, address type in {0,1,2,3,23,24,255,256,65536,2^32-1}, 0..3 "
-            "attributes of the three kinds incl. repeated / out-of-order ones, path lengths 0..30), then 1/4 valid only, 2/4 single-bit "
+            "attributes of the three kinds incl. repeated / out-of-order ones, path lengths 0..30), then 2 (thorough 6) re-encodings of that "
+            "address with every head width for the array / tag / byte-string / checksum heads (immediate, 1, 2, 4, 8 argument bytes, non-minimal "
+            "ones, indefinite and 3-element arrays, other tag numbers), intact or corrupted in the payload, in the low 32 bits or - with the "
+            "8-byte head - in the upper 32 bits of the checksum field, then 1/4 valid only, 2/4 single-bit "
             "corruptions of payload or checksum bytes (6 sampled bits per case in quick; every bit of the address for 1/8 of the cases in "
             "thorough), 1/4 malformed (truncated, trailing bytes, other array heads incl. indefinite / longer arrays, random bytes with a "
             "Byron header nibble), each through a random entry point out of ByronAddress::from_bytes / from_base58, Address::from_bytes / "
